@@ -403,6 +403,62 @@ def narrow_total_case(ctx, index, rng: random.Random):
     rec.case([dt, shape, big.ravel().tolist()], exact > top, cls=f"narrow_total/{dt}/{d}d")
 
 
+def big_int_factor_case(ctx, index, rng: random.Random):
+    """An integer factor whose square times the squared errors leaves int64 while contents, factor and scaled contents are ordinary
+    numbers (a bin of a million entries times five million): the squared errors are c*c times the old ones - in whichever type - and
+    (h*c)/c gives h back; they are not what is left after a wrap-around."""
+    import physt
+
+    rec = ctx.rec
+    rec.mon("C06.identities")
+    nb = rng.randint(1, 4)
+    e = np.arange(nb + 1, dtype=float)
+    nd = rng.random() < 0.25
+    counts = [rng.choice([1_000_000, 250_000, 12, 3_000_000, 0]) for _ in range(nb)]
+    if max(counts) < 1000:
+        counts[0] = 1_000_000
+    from physt.histogram1d import Histogram1D
+    from physt.histogram_nd import Histogram2D
+
+    if nd:
+        b = physt.h2(None, None, [e, np.array([0.0, 1.0])])
+        h = Histogram2D([x.copy() for x in b.binnings], frequencies=np.asarray(counts, dtype=np.int64).reshape(nb, 1))
+    else:
+        h = Histogram1D(physt.h1(None, e).binning.copy(), frequencies=np.asarray(counts, dtype=np.int64), underflow=rng.choice([0, 5]))
+    base = rng.choice([5_000_000, 4_000_000, 10_000_000, 3_100_000])
+    c = rng.choice([base, np.int64(base), np.int64(base)])
+    form = rng.choice(["mul", "rmul", "imul"])
+    with attach.quiet():
+        f0 = np.asarray(h.frequencies, dtype=float).copy()
+        e0 = np.asarray(h.errors2, dtype=float).copy()
+    try:
+        with warnings.catch_warnings():
+            warnings.simplefilter("ignore")
+            if form == "mul":
+                r = h * c
+            elif form == "rmul":
+                r = c * h
+            else:
+                r = h.copy()
+                r *= c
+            back = r / c
+    except Exception as ex:
+        rec.fail(monitor="C06.identities", op=f"{form}/big_int", symptom=f"valid scaling raised {type(ex).__name__}", diff=["raised"], detail={"factor": repr(c), "counts": counts, "error": str(ex)[:160]})
+        rec.case(["big_int", nd, counts, repr(c), form], True, cls="big_int_factor/raised")
+        return
+    with attach.quiet():
+        f1, e1 = np.asarray(r.frequencies, dtype=float), np.asarray(r.errors2, dtype=float)
+        if not np.array_equal(f1, f0 * float(base)):
+            rec.fail(monitor="C06.identities", op=f"{form}/big_int", symptom="contents are not c times the old contents", diff=["frequencies"], detail={"factor": repr(c), "counts": counts})
+        if not np.allclose(e1, e0 * float(base) ** 2, rtol=1e-12, atol=0):
+            rec.fail(monitor="C06.identities", op=f"{form}/big_int", symptom="squared errors are not c*c times the old ones (products beyond int64 wrapped around)", diff=["errors2"],
+                     detail={"factor": repr(c), "counts": counts, "want": (e0 * float(base) ** 2).ravel()[:4].tolist(), "got": e1.ravel()[:4].tolist(), "dtype": str(r.dtype)})
+        fb, eb = np.asarray(back.frequencies, dtype=float), np.asarray(back.errors2, dtype=float)
+        if not (np.allclose(fb, f0, rtol=1e-12, atol=0) and np.allclose(eb, e0, rtol=1e-12, atol=0)):
+            rec.fail(monitor="C06.identities", op=f"{form}/big_int", symptom="(h*c)/c does not reproduce h", diff=["errors2"], detail={"factor": repr(c), "counts": counts, "got": eb.ravel()[:4].tolist()})
+    rec.case(["big_int", nd, counts, repr(c), form], True, cls=f"big_int_factor/{'nd' if nd else '1d'}/{type(c).__name__}/{form}")
+
+
 def overlapping_flows_case(ctx, index, rng: random.Random):
     """The refusals of the statement hold in this flow of control whatever another one has switched on: while a second thread (or a second
     asyncio task) is inside `enable_free_arithmetics()`, a negative factor / an array operand here is refused all the same."""
@@ -591,6 +647,7 @@ def run(ctx):
     attach_monitors()
     ctx.run_cases(ctx.scale(80, 500), far_scale_case, salt="far")
     ctx.run_cases(ctx.scale(24, 120), overlapping_flows_case, salt="flows")
+    ctx.run_cases(ctx.scale(60, 300), big_int_factor_case, salt="bigint")
     ctx.run_cases(ctx.scale(40, 300), narrow_total_case, salt="narrow")
     ctx.run_cases(ctx.scale(500, 4000), one_case, salt="scale")
     ctx.run_cases(ctx.scale(100, 800), collection_case, salt="collection")
